@@ -1,5 +1,5 @@
 \* classification of a rejected trace: the recorded outcomes are applied as they are (transcription guards off)
-CONSTANTS CIDS = {"c1", "c2", "c3", "c4", "c5", "c6", "c7", "c8", "c9", "c10", "c11", "c12", "c13", "c14", "c15", "c16", "c17", "c18", "c19", "c20"}
+CONSTANTS CIDS = {"c1", "c2", "c3", "c4", "c5", "c6", "c7", "c8", "c9", "c10", "c11", "c12", "c13", "c14", "c15", "c16", "c17", "c18", "c19", "c20", "c21", "c22", "c23", "c24", "c25", "c26", "c27", "c28", "c29", "c30", "c31", "c32", "c33", "c34", "c35", "c36", "c37", "c38", "c39", "c40", "c41", "c42", "c43", "c44", "c45", "c46", "c47", "c48", "c49", "c50", "c51", "c52", "c53", "c54", "c55", "c56", "c57", "c58", "c59", "c60"}
           MaxOps = 100000 K0 = 0 Q0 = 0 Level0 = "api" Strict = FALSE Lag = TRUE
 INIT TraceInit
 NEXT TraceNext
